@@ -74,13 +74,18 @@ def cases(tier):
     xnames = [n for n in POOL if POOL[n][0] == ("X",)]
     pre = [[]] + selections(xnames, 3)
     for p in pre:
-        for via in ("ctor", "calls"):
+        for via in ("ctor", "calls", "ctor-split"):
             if via == "ctor" and not p:
+                continue
+            if via == "ctor-split" and len(p) < 2:
                 continue
             out.append(dict(kind="step", key=["X"], pre=p, via=via))
     anames = [n for n in POOL if POOL[n][0] == ("X", "Y")]
     for p in [[]] + selections(anames, 2):
         out.append(dict(kind="step", key=["X", "Y"], pre=p, via="calls"))
+        if len(p) >= 2:
+            out.append(dict(kind="step", key=["X", "Y"], pre=p, via="ctor-split"))
+    out.append(dict(kind="ctor-entries"))
     if tier == "thorough":
         calls = []
         small = ["dx_c", "dx_c2", "dx_l", "dx_o"]
@@ -170,17 +175,49 @@ def compare_queries(W, label, qa, qb):
             W.equal("get_metric-same-value:" + label, va, vb, detail=ta, record=False)
 
 
+def case_ctor_entries(W, ds):
+    """constructor entries are registrations in dict order, whatever the spelling of the axis set"""
+    for entries in ([("X", ["dx_c"]), (("X",), ["dx_c2"])], [("X", ["dx_c", "dx_l"]), (("X",), ["dx_o", "dx_l2"])], [(("X",), ["dx_l"]), ("X", ["dx_c"])],
+                    [(("X", "Y"), ["a_cc"]), (("Y", "X"), ["a_lc"])], [(("X", "Y"), ["a_cc"]), (("Y", "X"), ["a_cc2"])], [(("Y", "X"), ["a_lc"]), (("X", "Y"), ["a_cc", "a_lc"])],
+                    [("X", ["dx_c"]), (("X", "Y"), ["a_cc"]), (("X",), ["dx_l"]), (("Y", "X"), ["a_lc"])]):
+        model = {}
+        want = "ok"
+        for k, names in entries:
+            key = frozenset([k] if isinstance(k, str) else k)
+            try:
+                spec_register(model, key, names, False)
+            except Refused:
+                want = "refused"
+                break
+        try:
+            g = new_grid(ds, metrics=dict(entries))
+            got = "ok"
+        except ValueError:
+            got, g = "refused", None
+        lab = str(entries)
+        W.require("ctor-entries-outcome", got == want, "Grid(metrics=%s): %s, specification says %s" % (lab, got, want))
+        if g is not None and want == "ok":
+            W.require("ctor-entries-registry", observed(g) == model_obs(model), "Grid(metrics=%s): registry %s want %s" % (lab, observed(g), model_obs(model)))
+
+
 def case(W, cfg):
     ds = build(W)
     if cfg["kind"] == "hist":
         return case_hist(W, cfg, ds)
+    if cfg["kind"] == "ctor-entries":
+        return case_ctor_entries(W, ds)
     key = cfg["key"]
     pre = cfg["pre"]
     names = [n for n in POOL if list(POOL[n][0]) == key]
 
     def fresh():
         """a grid in the pre-state"""
-        if cfg["via"] == "ctor":
+        if cfg["via"] == "ctor-split":
+            # two constructor entries for the same axis set, spelled differently: registered one after the other
+            k1 = key[0] if len(key) == 1 else tuple(key)
+            k2 = tuple(key) if len(key) == 1 else tuple(key[::-1])
+            g = new_grid(ds, metrics={k1: list(pre[:1]), k2: list(pre[1:])})
+        elif cfg["via"] == "ctor":
             g = new_grid(ds, metrics={tuple(key): list(pre)})
         else:
             g = new_grid(ds)
